@@ -7,6 +7,13 @@
 (3) spec/Dispatch.tla (EXTENDS C12's C3.tla): class hierarchies (one native base + traits) with a
     method / property defined on arbitrary subsets, `super()` chains, and the method the MRO selects.
 
+(4) spec/Slots.tla: class shapes (which special methods are defined and what they return, boundary
+    values, NotImplemented, exceptions) x operations that go through the type's slots, performed by
+    interpreted and by compiled callers, with the outcome CPython's data model prescribes;
+(5) spec/IterMut.tla: for loops over dict / dict views / set / list / reversed / enumerate / zip /
+    tuple / str / range whose body mutates the container at a chosen iteration, CPython's iterators
+    as state machines: the elements seen, the RuntimeError, the final container.
+
 Binding: everything TLC emits is rendered as Python modules and run under CPython (a disagreement
 between a specification and CPython is model drift -> exit 2); a selection is compiled with the
 working tree's mypyc (mypyc.build.mypycify; C compiler) and called from an interpreted child
@@ -28,6 +35,7 @@ from typing import Any
 
 from harness.common import (MachineryError, PY, REPO, SPEC, Verdict, coverage_summary, parse_args,
                             repo_env, sany, scratch, tlc)
+from harness.drivers import c05_extra as X
 
 PID = "C05"
 HERE = os.path.dirname(os.path.abspath(__file__))
@@ -500,6 +508,10 @@ def start_tlc_jobs(tier: str, seed: int, ex: ThreadPoolExecutor) -> dict[str, An
         cf.append(("MC_CtrlFlow", j["cfg"], dict(deadlock=not kw, coverage=not kw and not j.get("nocov"), **kw)))
     cf.sort(key=lambda j: 0 if any(b in j[1] for b in big) else 1)   # longest first
     jobs += cf
+    jobs.append(("MC_Slots", "Gen_Slots.cfg", dict(coverage=True)))
+    jobs.append(("MC_IterMut", "Gen_IterMut.cfg", dict(coverage=True)))
+    jobs.append(("MC_Slots", "Mut_Slots_HashMinusOne.cfg", dict(coverage=False)))
+    jobs.append(("MC_IterMut", "Mut_IterMut_GrowthUnnoticed.cfg", dict(coverage=False)))
     jobs.append(("MC_Dispatch", "MC_Dispatch_%d.cfg" % n, dict(coverage=True)))
     jobs.append(("MC_CtrlFlow", "Mut_CtrlFlow_NoOverride.cfg", dict(deadlock=True, coverage=False)))
     jobs.append(("MC_Dispatch", "Mut_Dispatch_StaticSuper.cfg", dict(coverage=False)))
@@ -627,6 +639,38 @@ def make_ab_mr_part(name: str, sigs: list[Any], calls: list[Any], units: list[di
     return part
 
 
+def make_extra_part(name: str, kind: str, items: list[dict[str, Any]], per_mod: int) -> Part:
+    """kind "sl": items are class shapes of Slots.tla; kind "im": programs of IterMut.tla."""
+    part = Part(name)
+    part.info["compile"] = True
+    for mi in range(0, len(items), per_mod):
+        mod = "%s%d" % (kind, mi // per_mod)
+        sub = items[mi:mi + per_mod]
+        src, names, calls = (X.sl_module if kind == "sl" else X.im_module)(sub)
+        part.mods[mod] = src
+        part.units[mod] = names
+        for cid, expr, want, op, caller, ui in calls:
+            full = "%s:%s" % (mod, cid)
+            part.calls.append([full, mod, expr])
+            part.unit_of_call[full] = (mod, cid.split(":")[0])
+            part.info[full] = dict(kind=kind, item=sub[ui], op=op, caller=caller, want=want)
+    return part
+
+
+def show_item(inf: dict[str, Any]) -> str:
+    """One-line description of the input a call belongs to."""
+    k = inf["kind"]
+    if k == "cf":
+        return inf["key"]
+    if k == "mr":
+        return mr_show(inf["row"])
+    if k == "ab":
+        return "def f%s <- (%s)" % (ab_sig_show(inf["sig"]), ab_call_args(inf["call"]))
+    if k == "sl":
+        return X.sl_show(inf["item"])
+    return X.im_show(inf["item"])
+
+
 def drift_of(part: Part, res: dict[str, Any]) -> list[str]:
     """Specification vs CPython on every call of the part."""
     bad: list[str] = []
@@ -637,7 +681,11 @@ def drift_of(part: Part, res: dict[str, Any]) -> list[str]:
             bad.append("%s: no CPython result" % cid)
             continue
         out, r = got
-        if inf["kind"] == "ab":
+        if inf["kind"] in ("sl", "im"):
+            # value: repr must agree; exception: the type (the message is CPython's own business here)
+            if out != "" or r[:2] != inf["want"][:2]:
+                bad.append("%s %s %s/%s: spec %r, CPython %r" % (inf["kind"], show_item(inf), inf["op"], inf["caller"], inf["want"], r))
+        elif inf["kind"] == "ab":
             mask = inf["mask"]
             ok = (mask == 0) if r[0] == "ret" else (r[1] == "TypeError" and (AB_ERRBITS.get(ab_class(r[2]), 0) & mask) != 0)
             if not ok:
@@ -655,7 +703,7 @@ def run_compiled(rd: str, plan: dict[str, Any]) -> tuple[dict[str, Any], list[tu
     skip: list[str] = []
     died: list[tuple[str, int, str]] = []
     results: dict[str, Any] = {}
-    for _ in range(12):
+    for _ in range(120):
         plan["skip"] = skip + list(results)
         r = run_child(rd, plan, "compiled")
         results.update(r["results"])
@@ -677,7 +725,7 @@ def process_part(part: Part, root: str, configs: list[tuple[str, str]], check_dr
     os.makedirs(d, exist_ok=True)
     rep: dict[str, Any] = dict(part=part.name, drift=[], rejected={}, builds=[], compared=0, diffs=[], fatal=None,
                                calls=len(part.calls), t={})
-    plan = dict(modules=[m for m in sorted(part.mods) if m != LIB], ns={}, calls=part.calls)
+    plan = dict(modules=[m for m in sorted(part.mods) if m != LIB], ns={}, calls=part.calls, prelude=X.PRELUDE)
     t0 = time.time()
     ri = run_child(interp_dir(d, part.mods), plan, "interp")
     rep["t"]["interp"] = round(time.time() - t0, 1)
@@ -708,7 +756,7 @@ def process_part(part: Part, root: str, configs: list[tuple[str, str]], check_dr
         if names:
             mods[mod] = strip_units(mods[mod], names)
     calls = [c for c in part.calls if part.unit_of_call.get(c[0]) not in rejected]
-    plan = dict(modules=plan["modules"], ns={}, calls=calls)
+    plan = dict(modules=plan["modules"], ns={}, calls=calls, prelude=X.PRELUDE)
     rep["calls_compiled"] = len(calls)
     # ---- builds
     for opt, mode in configs:
@@ -760,6 +808,13 @@ KNOWN_RERAISE = "cf:bare-raise-without-active-exception"
 KNOWN_SUPER = "mr:super-bound-statically"
 KNOWN_AB_TEXT = "ab:binding-TypeError-message-text"
 KNOWN_AB_POSONLY = "ab:positional-only-parameter-treated-as-positional-or-keyword"
+KNOWN_SL_NEGLEN = "sl:negative-__len__-not-rejected"
+KNOWN_SL_BIGLEN = "sl:__len__-beyond-ssize_t"
+KNOWN_SL_BIGHASH = "sl:__hash__-beyond-ssize_t-not-reduced"
+KNOWN_SL_INGETITEM = "sl:in-ignores-__getitem__-sequence-protocol"
+KNOWN_SL_ITEMERR = "sl:missing-__setitem__-or-__delitem__-error"
+KNOWN_SL_BINOP = "sl:binary-operator-wrapper-dispatch"
+KNOWN_SL_BINOP_TEXT = "sl:binary-operator-TypeError-wording"
 
 
 def classify(part: Part, diff: dict[str, Any]) -> tuple[str, str, dict[str, Any], int]:
@@ -784,6 +839,50 @@ def classify(part: Part, diff: dict[str, Any]) -> tuple[str, str, dict[str, Any]
         src = "\n".join(mr_unit(0, row)[0])
         what = "%s of [%s] (%s): interpreted %r, compiled %r %s" % (inf["what"], mr_show(row), cfgs, i, c, diff["detail"])
         return key, what, dict(kind="mr", row=row, what=inf["what"], config=cfgs, source=src, interp=i, compiled=c), 10 * len(row["b"]) + sum(len(b) for b in row["b"])
+    if inf["kind"] == "im":
+        row = inf["item"]
+        key = "im:%s:%s:%s" % (X.im_show(row), inf["op"], diff["kind"])
+        if c is not None and c[0] == i[0] and c[1][0] == "ret":
+            for k, pred in X.im_known(row).items():
+                if c[1][1] == repr(pred):
+                    key = k
+        src = "\n".join(X.im_unit(0, row)[0])
+        what = "%s (%s) of [%s] (%s): interpreted %r, compiled %r %s" % (
+            inf["op"], "container passed in from interpreted code" if inf["op"] == "passed" else "container built by compiled code",
+            X.im_show(row), cfgs, i, c, diff["detail"])
+        return key, what, dict(kind="im", item=row, op=inf["op"], caller=inf["caller"], config=cfgs, source=src, interp=i, compiled=c), row["n"] * 10 + row["when"]
+    if inf["kind"] == "sl":
+        item = inf["item"]
+        val = dict(zip(item["f"], item["v"]))
+        fam, op = item["fam"], inf["op"]
+        key = "sl:%s:%s/%s:%s" % (X.sl_show(item), op, inf["caller"], diff["kind"])
+        wexc = i[1][0] == "exc"
+        gexc = c is not None and c[1][0] == "exc"
+        gtype = c[1][1] if gexc else None
+        if c is not None and c[0] != i[0]:
+            pass
+        elif fam == "L" and val["len"] == "m1" and i[1][:2] == ["exc", "ValueError"] and (c is None or gtype == "SystemError"):
+            key = KNOWN_SL_NEGLEN
+        elif fam == "L" and val["len"] == "big" and i[1][:2] == ["exc", "OverflowError"] and (
+                gtype == "OverflowError" or (op == "len" and inf["caller"] == "t" and c is not None and c[1] == ["ret", repr(2 ** 63)])):
+            key = KNOWN_SL_BIGLEN
+        elif fam == "H" and val["hash"] in ("big", "nbig") and gtype == "OverflowError" and "C ssize_t" in c[1][2]:
+            key = KNOWN_SL_BIGHASH
+        elif fam == "C" and op in ("in10", "in5") and val["contains"] == "none" and val["getitem"] != "none" \
+                and gtype == "TypeError" and "is not iterable" in c[1][2]:
+            key = KNOWN_SL_INGETITEM
+        elif fam == "C" and op in ("set0", "del0") and wexc and gexc and val[{"set0": "setitem", "del0": "delitem"}[op]] == "none":
+            key = KNOWN_SL_ITEMERR
+        elif fam == "N" and c is not None:
+            pred = X.mypyc_binop_outcome(val, op)
+            got = ["exc", gtype] if gexc else ["ret", c[1][1].strip("'")]
+            if got == pred:
+                key = KNOWN_SL_BINOP_TEXT if (wexc and gexc and i[1][1] == gtype) else KNOWN_SL_BINOP
+        src = "\n".join(X.sl_unit(0, item)[0])
+        who = {"i": "performed by interpreted code", "t": "performed by compiled code (operands typed with their classes)",
+               "a": "performed by compiled code (operands typed Any)"}[inf["caller"]]
+        what = "%s %s on [%s] (%s): interpreted %r, compiled %r %s" % (op, who, X.sl_show(item), cfgs, i, c, diff["detail"])
+        return key, what, dict(kind="sl", item=item, op=op, caller=inf["caller"], config=cfgs, source=src, interp=i, compiled=c), len(item["v"])
     sig, call = inf["sig"], inf["call"]
     key = "ab:%s <- (%s):%s" % (ab_sig_show(sig), ab_call_args(call), diff["kind"])
     if c is not None and i[1][0] == "exc" and c[1][0] == "exc" and i[1][1] == c[1][1] == "TypeError" and i[0] == c[0]:
@@ -965,6 +1064,89 @@ def build_abmr_parts(tier: str, rnd: random.Random, runs: dict[str, Any], cov: d
     return parts
 
 
+IM_CORE = ("dkeys", "dvalues", "ditems", "set", "range")   # kinds with size checks / known findings: always compiled
+
+
+def build_extra_parts(tier: str, rnd: random.Random, runs: dict[str, Any], cov: dict[str, Any]) -> list[Part]:
+    """Mechanisms (4) Slots and (5) IterMut."""
+    quick = tier == "quick"
+    parts: list[Part] = []
+    for c in ("Gen_Slots.cfg", "Gen_IterMut.cfg"):
+        need_ok(runs[c].result(), c)
+    srows = runs["Gen_Slots.cfg"].result().json_lines("S")
+    irows = runs["Gen_IterMut.cfg"].result().json_lines("I")
+    if not srows or not irows:
+        raise MachineryError("Slots / IterMut: TLC emitted nothing")
+    shapes = X.sl_shapes(srows)
+    by_fam: dict[str, list[dict[str, Any]]] = {}
+    for sh in shapes:
+        by_fam.setdefault(sh["fam"], []).append(sh)
+    chosen: list[dict[str, Any]] = []
+    for fam in sorted(by_fam):
+        fs = by_fam[fam]
+        if not quick or fam in ("H", "L", "C"):
+            chosen += fs
+            continue
+        # a fixed subset (the same in every run) + a seeded sample of the rest
+        stride, extra = (6, 20) if fam == "N" else (16, 30)
+        fixed = fs[::stride]
+        fixed_keys = {x["key"] for x in fixed}
+        rest = [x for x in fs if x["key"] not in fixed_keys]
+        chosen += fixed + rnd.sample(rest, min(extra, len(rest)))
+    keys = {x["key"] for x in chosen}
+    per_part = 540
+    for i in range(0, len(chosen), per_part):
+        p = make_extra_part("sl%d" % (i // per_part), "sl", chosen[i:i + per_part], 60)
+        p.info["configs"] = configs_for(tier, "mr-main" if i == 0 else "mr")
+        parts.append(p)
+    others = [x for x in shapes if x["key"] not in keys]
+    if others:
+        p = make_extra_part("slv", "sl", others, 400)
+        p.info["compile"] = False
+        parts.append(p)
+    core = [r for r in irows if r["kind"] in IM_CORE]
+    rest_i = [r for r in irows if r["kind"] not in IM_CORE]
+    pick = rest_i if not quick else rnd.sample(rest_i, min(100, len(rest_i)))
+    p = make_extra_part("im0", "im", core + pick, 400)
+    p.info["configs"] = configs_for(tier, "mr-main")
+    parts.append(p)
+    picked = {id(r) for r in pick}
+    left = [r for r in rest_i if id(r) not in picked]
+    if left:
+        p = make_extra_part("imv", "im", left, 400)
+        p.info["compile"] = False
+        parts.append(p)
+    cov["slots"] = dict(cases_emitted=len(srows), class_shapes=len(shapes), shapes_compiled=len(chosen),
+                        per_family={f: len(v) for f, v in sorted(by_fam.items())})
+    cov["itermut"] = dict(programs_emitted=len(irows), programs_compiled=len(core) + len(pick))
+    return parts
+
+
+def check_extra_mutant(kind: str, rows: list[dict[str, Any]]) -> int:
+    """Number of predictions of a specification-level mutant (Slots / IterMut) that CPython rejects."""
+    import io
+    import types
+    items = X.sl_shapes(rows) if kind == "sl" else rows
+    src, _names, calls = (X.sl_module if kind == "sl" else X.im_module)(items)
+    ns: dict[str, Any] = {}
+    exec(compile(src, "<mutant-%s>" % kind, "exec"), ns)
+    env: dict[str, Any] = {"m": types.SimpleNamespace(**{k: v for k, v in ns.items() if not k.startswith("__")})}
+    exec(X.PRELUDE, env)
+    bad = 0
+    for _cid, expr, want, _op, _caller, _ui in calls:
+        old, sys.stdout = sys.stdout, io.StringIO()
+        try:
+            try:
+                r = ["ret", repr(eval(expr, dict(env)))]
+            except BaseException as e:  # noqa: B902
+                r = ["exc", type(e).__name__]
+        finally:
+            sys.stdout = old
+        if r[:2] != want[:2]:
+            bad += 1
+    return bad
+
+
 def main(argv: list[str]) -> int:
     global BUILD_SEM
     import threading
@@ -974,7 +1156,7 @@ def main(argv: list[str]) -> int:
     v = Verdict(PID, tier, seed)
     rnd = random.Random(seed)
     BUILD_SEM = threading.Semaphore(MAX_CC)
-    for m in ("MC_CtrlFlow", "MC_Dispatch", "MC_ArgBind"):
+    for m in ("MC_CtrlFlow", "MC_Dispatch", "MC_ArgBind", "MC_Slots", "MC_IterMut"):
         sany(os.path.join(SPEC, m + ".tla"))
     root = scratch("c05-")
     cov: dict[str, Any] = {"per_config": {}}
@@ -989,6 +1171,7 @@ def main(argv: list[str]) -> int:
 
     # the argument-binding / method-resolution parts only need their own (short) TLC runs
     pending = go(build_abmr_parts(tier, random.Random(seed + 1), runs, cov))
+    pending += go(build_extra_parts(tier, random.Random(seed + 2), runs, cov))
     pending += go(build_cf_parts(tier, rnd, runs, cov, seed))
     order = [p for p, _ in pending]
     reps = [f.result() for _, f in pending]
@@ -1025,6 +1208,11 @@ def main(argv: list[str]) -> int:
     if mut_bad == 0:
         raise MachineryError("CPython validation accepted the traces of the mutant specification (FinallyOverrides = FALSE)")
     cov["spec_mutant_traces_rejected_by_cpython"] = mut_bad
+    for kind, cfg in (("sl", "Mut_Slots_HashMinusOne.cfg"), ("im", "Mut_IterMut_GrowthUnnoticed.cfg")):
+        nbad = check_extra_mutant(kind, results[cfg].json_lines("S" if kind == "sl" else "I"))
+        if nbad == 0:
+            raise MachineryError("CPython validation accepted the predictions of the mutant specification %s" % cfg)
+        cov["spec_mutant_%s_predictions_rejected_by_cpython" % kind] = nbad
 
     fatals = [r["fatal"] for r in reps if r["fatal"]]
     if fatals:
@@ -1049,7 +1237,7 @@ def main(argv: list[str]) -> int:
                 cid = next((c for c, (m2, u2) in p.unit_of_call.items() if (m2, u2) == (mod, u)), None)
                 if cid:
                     inf = p.info[cid]
-                    rej_samples[cls] = inf["key"] if inf["kind"] == "cf" else mr_show(inf["row"])
+                    rej_samples[cls] = show_item(inf)
     by_class: dict[str, list[tuple[int, str, str, dict[str, Any]]]] = {}
     ndiff = 0
     if os.environ.get("C05_DUMP_DIFFS"):
@@ -1081,8 +1269,9 @@ def main(argv: list[str]) -> int:
         traces_validated_against_impl=compared,
         evaluations=validated,
         distinct_nontrivial=sum(1 for p in order if p.info.get("compile") for c in p.calls
-                                if (p.info[c[0]].get("spec_r", {}).get("k") == "raise") or p.info[c[0]]["kind"] == "mr"
-                                or (p.info[c[0]]["kind"] == "ab" and p.info[c[0]]["mask"])),
+                                if (p.info[c[0]].get("spec_r", {}).get("k") == "raise") or p.info[c[0]]["kind"] in ("mr", "sl")
+                                or (p.info[c[0]]["kind"] == "ab" and p.info[c[0]]["mask"])
+                                or (p.info[c[0]]["kind"] == "im" and p.info[c[0]]["item"]["mut"] != "none")),
         rule="every behaviour TLC emits (program + input + predicted trace; signature x call + predicted binding outcome; "
              "hierarchy + predicted method chain) is executed by CPython and compared with the prediction (evaluations); "
              "traces_validated_against_impl = calls made into mypyc-compiled code (all build configurations) whose stdout, "
@@ -1124,6 +1313,9 @@ def do_replay(path: str) -> int:
         part.calls = [c for c in part.calls if c[0].endswith(":" + r["what"])]
     elif r.get("kind") == "ab":
         part = make_ab_mr_part("replay", [r["sig"]], [dict(c=r["call"], v=[0])], [])
+    elif r.get("kind") in ("sl", "im"):
+        part = make_extra_part("replay", r["kind"], [r["item"]], 10)
+        part.calls = [c for c in part.calls if part.info[c[0]]["op"] == r["op"] and part.info[c[0]]["caller"] == r["caller"]]
     else:
         raise MachineryError("unknown replay file %s" % path)
     part.info["compile"] = True
